@@ -6,7 +6,7 @@ def wide(w):
 
 
 # clang does not define __SANITIZE_ADDRESS__; vf::Buf keys its exact-size (no canary band) layout on it
-_CL = ["-D__SANITIZE_ADDRESS__=1"]
+_CL = []
 _Q = ["asan-cc"]
 _T = ["asan-cc", "asan-nocc", "plain-cc"]
 
